@@ -487,6 +487,11 @@ def run(tier='quick', replay=None):
         gen_ok = False
         thm_files = {}
         if tr is not None:
+            # parts of the source outside the translator's subset: each is a broken obligation of its own, the rest goes on
+            for part, detail in tr.errors:
+                nm_ = part if part.startswith(('varchange_', 'sshort_')) else 'translate_' + part
+                res.failed_obl.append((nm_, 'translation of lcapy (tools/tr_fourier.py)', 'Untranslatable: ' + detail))
+                res.obligations += 1
             try:
                 texts['FourierGen.v'] = G.gen_defs(tr)
                 thm_files.update(G.gen_table_obligations(tr, meta))
@@ -498,7 +503,7 @@ def run(tier='quick', replay=None):
             if 'FourierGen.v' in texts:
                 w.write('FourierGen.v', texts['FourierGen.v'])
                 ok, out, secs = core.coqc(w.dir, 'FourierGen.v')
-                gen_ok = ok
+                gen_ok = ok and tr.entries is not None
                 if not ok:
                     res.failed_obl.append(('FourierGen', 'FourierGen.v', out[-800:]))
                     res.obligations += 1
@@ -537,7 +542,7 @@ def run(tier='quick', replay=None):
         # ---- 3. prove ----------------------------------------------------------------------------------------------
         ptxt = open(os.path.join(core.VERIF, 'coq', 'props', 'C12.v')).read()
         files = []
-        if gen_ok and not replay:
+        if 'FourierGen.v' in texts and os.path.exists(w.path('FourierGen.vo')) and not replay:
             # grouped first (fast); members of a failing group are then compiled one by one
             names = sorted(thm_files)
             ngroups = 12
@@ -751,13 +756,14 @@ def run(tier='quick', replay=None):
             ft_ = ('rule:' + o['pid'][2:]) if o['pid'].startswith('R_') else ('pid:' + o['pid'])
             oblkey[o['sound']] = ('fwd', ft_)
             oblkey[o['inv']] = ('inv', ft_)
-        for o in meta['var_obligations']:
-            ft_ = '%s:%s.%s' % ('sshort' if o['name'].startswith('sshort_') else 'conv', o['cls'], o['method'])
-            oblkey[o['name']] = (None, ft_)
+        for fname_, cls_, m_, src_, dst_ in T.CONV:
+            oblkey['varchange_%s_%s' % (cls_, m_)] = (None, 'conv:%s.%s' % (cls_, m_))
+        for fname_, cls_, m_, dst_ in T.SCONV:
+            oblkey['sshort_%s' % m_] = (None, 'sshort:%s.%s' % (cls_, m_))
         import hashlib
         irhash = {}
         if tr is not None:
-            for e in tr.entries:
+            for e in tr.entries or []:
                 irhash['table_sound_%d' % e['line']] = hashlib.sha1(repr(e['fwd']).encode()).hexdigest()[:8]
                 irhash['table_inv_%d' % e['line']] = hashlib.sha1(repr(e['inv']).encode()).hexdigest()[:8]
             for v in tr.varchanges:
